@@ -5,7 +5,7 @@
 //!   ["t",ns]                         set the virtual clock
 //!   ["start",sender,"send",[id]]     sender calls ResilientSink::send(event id) and runs until it blocks in the inner sink
 //!   ["start",sender,"batch",[ids]]   same with send_batch
-//!   ["finish",sender,k,msg]          the inner sink answers: events before index k succeed, event k fails with msg
+//!   ["finish",sender,k,msg,..]       the inner sink answers: events before index k succeed, event k fails with msg
 //!                                    (k = -1: all succeed); the sender's call runs to completion
 //!   ["allow"] ["succ"] ["fail"]      direct calls on the same CircuitBreaker
 //! answer  : {"steps":[{"r":..,"st":"C|O|H"}..],"delivered":[ids],"dlq":[{"connector","error","id","type"}|{"unreadable":line}],
@@ -153,7 +153,7 @@ fn main() {
         let _ = std::fs::remove_file(&path);
         let dlq = if c["dlq"].as_bool().unwrap_or(true) { Some(Arc::new(DeadLetterQueue::open(&path).unwrap())) } else { None };
         let rs = Arc::new(ResilientSink::new(mock, cb.clone(), dlq.clone()));
-        let mut inflight: Vec<(u64, Fut)> = Vec::new();
+        let mut inflight: Vec<(u64, Vec<i64>, Fut)> = Vec::new();
         let mut steps = Vec::new();
         verif_clock::set_ns(0);
         for op in req["ops"].as_array().unwrap() {
@@ -175,7 +175,7 @@ fn main() {
                     };
                     match poll_once(&mut f) {
                         None => {
-                            inflight.push((s, f));
+                            inflight.push((s, ids.clone(), f));
                             json!("inflight")
                         }
                         Some(Ok(())) => json!("ok"),
@@ -186,17 +186,17 @@ fn main() {
                     let s = op[1].as_u64().unwrap();
                     let k = op[2].as_i64().unwrap();
                     let msg = op[3].as_str().unwrap_or("boom").to_string();
-                    let ids: Vec<i64> = op[4].as_array().unwrap().iter().map(|x| x.as_i64().unwrap()).collect();
-                    match inflight.iter().position(|(x, _)| *x == s) {
+                    match inflight.iter().position(|(x, _, _)| *x == s) {
                         None => json!("invalid"),
                         Some(pos) => {
+                            // the events of this call are the ones remembered at its start
+                            let (_, ids, mut f) = inflight.remove(pos);
                             {
                                 let mut g = sh.lock().unwrap();
                                 for (i, id) in ids.iter().enumerate() {
                                     g.outcomes.insert(*id, if i as i64 == k { Some(msg.clone()) } else { None });
                                 }
                             }
-                            let (_, mut f) = inflight.remove(pos);
                             let r = poll_once(&mut f);
                             sh.lock().unwrap().outcomes.clear();
                             match r {
@@ -220,7 +220,7 @@ fn main() {
             };
             steps.push(json!({"r": r, "st": st_str(cb.state())}));
         }
-        let pending: Vec<u64> = inflight.iter().map(|(s, _)| *s).collect();
+        let pending: Vec<u64> = inflight.iter().map(|(s, _, _)| *s).collect();
         drop(inflight);
         let dlq_count = dlq.as_ref().map(|d| d.count());
         drop(rs);
